@@ -429,6 +429,10 @@ class ExprMixin:
     def contains(self, container, item, fr, node):
         if isinstance(container, VTuple):
             return z3.Or([zbool(self.equals(item, x, fr, node)) for x in container.items] + [z3.BoolVal(False)])
+        if isinstance(container, (VSeq, VView)) and container.skind == 'dict':
+            k = self.fresh_int('m')
+            return z3.Exists([k], z3.And(k >= 0, k < container.n,
+                                         zbool(self.equals(item, seq_get(container, k).items[0], fr, node))))
         if isinstance(container, (VSeq, VView)):
             k = self.fresh_int('m')
             return z3.Exists([k], z3.And(k >= 0, k < container.n,
@@ -587,6 +591,8 @@ class ExprMixin:
             raise Unsupported(f"class attribute {obj.cls}.{attr}")
         if isinstance(obj, (VSeq, VView)):
             return VCallable('seqmethod', name=attr, seq=obj, origin=self._origin(node.value if node is not None else None, fr))
+        if isinstance(obj, VOpaque) and obj.tag == 'emptyset' and attr == 'add':
+            return VCallable('seqmethod', name=attr, seq=obj, origin=self._origin(node.value, fr))
         if isinstance(obj, VOpaque) and obj.tag == 'kwargs':
             return VOpaque((obj.py, attr), 'kwargsmethod')
         if isinstance(obj, VOpaque):
@@ -738,6 +744,20 @@ class ExprMixin:
 
     def iter_source(self, v, fr, node):
         """Turn an iterable value into a sequence value (VSeq/VView/VTuple)."""
+        if isinstance(v, VOpaque) and v.tag == 'emptyset':
+            return VTuple([])
+        if isinstance(v, VSeq) and v.skind == 'set':
+            # iterating a set yields an arbitrary permutation of its elements (uninterpreted bijection)
+            pi = z3.Function(self.fresh_name('perm'), I, I)
+            i, j = self.fresh_int('pi'), self.fresh_int('pj')
+            n = v.n
+            self.assume(z3.ForAll([i], z3.Implies(z3.And(i >= 0, i < n), z3.And(pi(i) >= 0, pi(i) < n))))
+            self.assume(z3.ForAll([i, j], z3.Implies(z3.And(i >= 0, i < n, j >= 0, j < n, pi(i) == pi(j)), i == j)))
+            sv = v
+            return VView(n, lambda k: seq_get(sv, pi(k)), 'list', elem_ty=type_of(v).elem)
+        if isinstance(v, (VSeq, VView)) and v.skind == 'dict':
+            d = v
+            return VView(d.n, lambda k: seq_get(d, k).items[0], 'list', elem_ty=type_of(d).elem.items[0])
         if isinstance(v, (VSeq, VView, VTuple)):
             self.seq_nonnull(v, fr, node, 'iteration')
             return v
